@@ -86,7 +86,7 @@ Theorem c09_invert_bits_used :
 Proof. exact hist_invert_used. Qed.
 
 (* (e) round trip for EVERY filter satisfying the codec's side conditions (not only reachable ones:
-   the count merely has to be within the capacity and 0 only for an all-zero array) ... *)
+   fields in range and the count equal to the word-wise popcount, which the reader verifies) ... *)
 Theorem c09_roundtrip :
   forall f, codec_ok f -> bf_deserialize (bf_serialize f) = Ok f.
 Proof. exact roundtrip. Qed.
